@@ -3,6 +3,7 @@
 import functools
 import inspect
 import textwrap
+import threading
 import types
 from collections.abc import MutableMapping, MutableSequence, MutableSet
 from typing import Any, Callable, Iterable, Optional
@@ -338,10 +339,27 @@ class EqMethod(MethodDescriptor):
 
     method_name = "__eq__"
 
+    # Pairs of instances whose comparison is under way (per thread), so that
+    # self-referential structures can be compared: a pair met again further down
+    # is equal unless the comparison already in progress finds a difference.
+    _IN_PROGRESS = threading.local()
+
     @staticmethod
     def eq(self, other: Any) -> bool:
         if not isinstance(other, self.__class__):
             return False
+        in_progress = EqMethod._IN_PROGRESS.__dict__.setdefault("pairs", set())
+        pair = (id(self), id(other))
+        if pair in in_progress:
+            return True
+        in_progress.add(pair)
+        try:
+            return EqMethod._eq(self, other)
+        finally:
+            in_progress.discard(pair)
+
+    @staticmethod
+    def _eq(self, other: Any) -> bool:
         for attr, attr_spec in self.__spec_class__.attrs.items():
             if not attr_spec.compare:
                 continue
